@@ -481,7 +481,8 @@ class Evaluator(abc.ABC):
 
             for job_id in job_id_not_gathered:
                 job_data = jobs_data[job_id]
-                if job_data and job_data["out"]:
+                # An output of 0 (or any other falsy value) is an output: only a job without one is skipped
+                if job_data and job_data["out"] is not None:
                     job = self._create_job(
                         job_id,
                         job_data["in"]["args"][0],
